@@ -105,6 +105,9 @@ func Assert(c bool, label string) {
 
 func Tag(k, v string) {}
 
+// Note records informational context for findings (not part of the finding key).
+func Note(k, v string) {}
+
 func Havoc(b []byte) {
 	nm := fresh("havoc")
 	b = b[:cap(b)]
